@@ -132,6 +132,9 @@ def enum_specs(level):
     # literal spellings and doubled signs
     for e in (["010"], ["07", None], ["017", None, "@0 + 1"], ["1", "@0 + 010"], ["1", "010 * @0", None], ["1", "@0 - -@0 * 2"], ["2", "@0 + +@0"], ["2", "- -@0"], ["2", "-(-@0)"], ["2", "+ -@0"], ["0"], ["00"]):
         specs.append(e)
+    # a sign in front of an octal literal as the whole value
+    for e in (["-010", None], ["+017", None, "@0 - 1"], ["-07"], ["1", "-010", None], ["-00", None]):
+        specs.append(e)
     # a signed operand in the middle of a chain of three: the grouping of the chain decides what the sign's operand is
     for o1 in OPS:
         for sg in ("-", "+"):
